@@ -56,16 +56,18 @@ pub fn pos_set_attach(p: &mut GlyphPosition, chain: i16, ty: u8) {
 }
 
 /// Budget and progress fields of the buffer inside a `UnicodeBuffer` / `GlyphBuffer`:
-/// [len, max_len, max_ops, successful, have_output, have_positions, idx, out_len, serial, scratch_flags].
-pub fn unicode_state(b: &crate::UnicodeBuffer) -> [u64; 10] {
+/// [len, max_len, max_ops, successful, have_output, have_positions, idx, out_len, serial, scratch_flags,
+/// info.len(), pos.len()] - the last two are the storage that whole-vector readers (`digest`,
+/// `guess_segment_properties`) see.
+pub fn unicode_state(b: &crate::UnicodeBuffer) -> [u64; 12] {
     state_of(&b.0)
 }
 
-pub fn glyph_state(b: &crate::GlyphBuffer) -> [u64; 10] {
+pub fn glyph_state(b: &crate::GlyphBuffer) -> [u64; 12] {
     state_of(&b.0)
 }
 
-fn state_of(b: &hb_buffer_t) -> [u64; 10] {
+fn state_of(b: &hb_buffer_t) -> [u64; 12] {
     [
         b.len as u64,
         b.max_len as u64,
@@ -77,5 +79,7 @@ fn state_of(b: &hb_buffer_t) -> [u64; 10] {
         b.out_len as u64,
         b.serial as u64,
         b.scratch_flags as u64,
+        b.info.len() as u64,
+        b.pos.len() as u64,
     ]
 }
